@@ -7,7 +7,7 @@ Every vector-level operation the C++ performs at nesting depth 0 is one `Instr`;
 recursive Lean functions producing the instruction list, with the same rotation of the four work vectors per level.
 Under the `GMGPOLAR_VERIF` hooks the implementation logs exactly this syntax (`Instr.toString`).
 -/
-namespace Cycle
+namespace MGCycle
 
 inductive Buf | sol | rhs | res | err
   deriving DecidableEq, Repr
@@ -124,4 +124,4 @@ def initSolution (c : Cfg) (fmg : Bool) (fmgKind : Kind) (fmgIters : Nat) (extra
     [.copy (c.levels - 1, .sol) (c.levels - 1, .rhs), .directSolve (c.levels - 1) (c.levels - 1, .sol)] ++
     fmgLoop c fmgKind fmgIters extrapolated fgs fmgStart
 
-end Cycle
+end MGCycle
